@@ -146,6 +146,10 @@ def run(chk):
                     exact = [k for k, pts in pat.items() for pt in pts if b"*" not in pt and b":" not in pt and pt == s]
                     if exact:
                         chk.monitor_fail("route %r equals a registered exact path but was answered NotFound" % s[:60], dict(case=c, impl=a[:600]))
+                    # ... and a route below a registered catch-all / rpc-service prefix is served by somebody
+                    below = [pt for pts in pat.values() for pt in pts if b"*" in pt and b":" not in pt and s.startswith(pt.split(b"*")[0]) and len(s) > len(pt.split(b"*")[0])]
+                    if below and not any(b":" in pt for pts in pat.values() for pt in pts):
+                        chk.monitor_fail("route %r lies below the registered catch-all %r but was answered NotFound" % (s[:60], below[0][:60]), dict(case=c, impl=a[:600]))
         if b == "unsupported":
             chk.count("outside-model")
             continue
